@@ -466,3 +466,41 @@ func frozenGlobal(g *ssa.Global) bool {
 	frozenCache[g] = res
 	return res
 }
+
+// fieldByType: the (first) field of a named struct type whose type satisfies pred — anchors by role, not by name.
+func fieldByType(n *types.Named, pred func(t types.Type) bool) *types.Var {
+	if n == nil {
+		return nil
+	}
+	st, ok := n.Underlying().(*types.Struct)
+	if !ok {
+		return nil
+	}
+	for i := 0; i < st.NumFields(); i++ {
+		if pred(st.Field(i).Type()) {
+			return st.Field(i)
+		}
+	}
+	return nil
+}
+
+// upstreamsSharedFields: the shared physical connection (the field whose type is the package's Upstream interface)
+// and the multiplexer session (*smux.Session) of client/upstream.Upstreams, whatever they are called.
+func upstreamsSharedFields(w *World) (ups *types.Named, connF, sessF *types.Var) {
+	ups = w.Named("internal/client/upstream", "Upstreams")
+	connF = fieldByType(ups, func(t types.Type) bool {
+		n, ok := t.(*types.Named)
+		return ok && n.Obj().Name() == "Upstream" && n.Obj().Pkg() != nil && strings.HasSuffix(n.Obj().Pkg().Path(), "/internal/client/upstream")
+	})
+	sessF = fieldByType(ups, isSmuxSessionPtr)
+	return
+}
+
+func isSmuxSessionPtr(t types.Type) bool {
+	p, ok := t.(*types.Pointer)
+	if !ok {
+		return false
+	}
+	n, ok := p.Elem().(*types.Named)
+	return ok && n.Obj().Name() == "Session" && n.Obj().Pkg() != nil && strings.HasSuffix(n.Obj().Pkg().Path(), "xtaci/smux")
+}
